@@ -615,8 +615,19 @@ def run_jobs(crate, harnesses, budget, progress=True, order_seed=0, witness_ever
     runroot = os.path.join(crate.dir, "jobs")
     shutil.rmtree(runroot, ignore_errors=True)
 
+    bad_count = {}
+    skip_after = int(os.environ.get("VK_SKIP_AFTER", "6"))
+
     def work(i, h, s, w):
         jd = os.path.join(runroot, "%05d" % i)
+        if bad_count.get(h.name, 0) >= skip_after:
+            # this harness already has several undecided / failing jobs: the rest would only repeat long timeouts
+            r = JobResult(h, s)
+            r.status = "unknown"
+            r.detail = "skipped: %d jobs of this harness already failed or timed out" % bad_count[h.name]
+            with lock:
+                done[0] += 1
+            return r
         try:
             r = run_job(crate, h, s, jd, budget, want_witness=w)
         except Exception as e:  # noqa
@@ -624,6 +635,8 @@ def run_jobs(crate, harnesses, budget, progress=True, order_seed=0, witness_ever
             r.detail = "exception: %r" % (e,)
         with lock:
             done[0] += 1
+            if r.status != "proved":
+                bad_count[h.name] = bad_count.get(h.name, 0) + 1
             if progress and (r.status != "proved" or done[0] % 25 == 0 or done[0] == len(jobs)):
                 sys.stderr.write("  [%d/%d] %s: %s %s %s\n" % (done[0], len(jobs), r.key(), r.status, r.how, r.detail[:200]))
         return r
